@@ -289,6 +289,29 @@ func c13Scaling(c *Ctx, sx *symx.Ctx) {
 			tableUse = l.X
 		}
 	})
+	if tableUse == nil {
+		// the lookup is made by a helper handed the table (boosts.factor(term))
+		ssau.ForEachInstr(fn, false, func(in ssa.Instruction) {
+			call, ok := in.(*ssa.Call)
+			if !ok || tableUse != nil {
+				return
+			}
+			g := call.Common().StaticCallee()
+			if g == nil || g.Blocks == nil || !c.P.IsRepoFunc(g) {
+				return
+			}
+			for i, a := range call.Common().Args {
+				if i >= len(g.Params) || !isBoostMap(a.Type()) || optLoad(a, "ContextBoosts") {
+					continue
+				}
+				for _, ref := range *g.Params[i].Referrers() {
+					if l, ok := ref.(*ssa.Lookup); ok && l.X == ssa.Value(g.Params[i]) && l.CommaOk {
+						tableUse = a
+					}
+				}
+			}
+		})
+	}
 	home := fn
 	isCtx := func(v ssa.Value) bool { return optLoad(v, "ContextBoosts") }
 	var table *ssa.MakeMap
@@ -639,6 +662,20 @@ func c13BoostFlow(c *Ctx, sx *symx.Ctx, fn *ssa.Function, fk string, fLookup *sy
 		ssau.ForEachInstr(fn, false, func(in ssa.Instruction) {
 			if l, ok := in.(*ssa.Lookup); ok && isTable(l.X) {
 				lks = append(lks, boostLookup{l, fn, nil})
+			}
+			// or in a helper handed the table
+			if call, ok := in.(*ssa.Call); ok {
+				if g := call.Common().StaticCallee(); g != nil && g.Blocks != nil && c.P.IsRepoFunc(g) && g != fn {
+					for i, a := range call.Common().Args {
+						if i < len(g.Params) && isTable(a) {
+							for _, ref := range *g.Params[i].Referrers() {
+								if l, ok := ref.(*ssa.Lookup); ok && l.X == ssa.Value(g.Params[i]) {
+									lks = append(lks, boostLookup{l, g, call})
+								}
+							}
+						}
+					}
+				}
 			}
 		})
 	} else {
